@@ -32,8 +32,11 @@ ROUNDS = [("/tmp/det_all.log", "round 1 (machinery as first built, commit ba9e68
           ("/tmp/try_q3.log", "round 3 (after the second strengthening, commit 14ceb53+)"),
           ("/tmp/try_q4.log", "round 4 (after the third strengthening)"),
           ("/tmp/try_q5.log", "thorough tier (final machinery of wave 1)"),
-          ("/tmp/try_w2.log", "wave 2, first evaluation"),
-          ("/tmp/try_w2b.log", "wave 2, after strengthening")]
+          ("/tmp/try_w2.log", "wave 2, batch A, first evaluation (commit 8c27c5c; its wave-2 shapes were added after reading the agents' descriptions, before evaluating)"),
+          ("/tmp/try_w2c.log", "wave 2, batch A, second evaluation (commit 1d1fcc6; shapes for the remaining batch-A changes added from their descriptions before evaluating)"),
+          ("/tmp/try_w2d.log", "wave 2, batch B, first evaluation with the machinery frozen at commit 1d1fcc6 (descriptions not used)"),
+          ("/tmp/try_w2e.log", "wave 2, after the strengthening that followed batch B"),
+          ("/tmp/try_w2f.log", "wave 2, thorough tier")]
 det = []
 base = os.path.basename(patchfile)
 for f, label in ROUNDS:
